@@ -54,7 +54,7 @@ class Modes(Stage):
         data = text.encode('utf-8').replace('\ue000'.encode('utf-8'), b'\xff')
         return dict(text=text, chunks=[gen_chunks(d, data), gen_chunks(d, data)], exit=d.choice([0, 0, 1, 2, 7, 99, 127, 255, d.int(0, 255)]),
                     argv=[d.choice(ARGS) for _ in range(d.int(0, 5))], marker=d.int(0, 9999), supress=d.chance(0.2), filter=d.choice([None, None, 'wl_display', '* ! .bind']),
-                    linger=d.choice([0, 0, 0, 0, 0, 0, 0, 1.3]), slow_pipe=d.choice([None, None, None, None, None, None, [1.4, 0.0], [0.0, 1.2], [1.3, 0.3]]), nmsg=len(specs), hashseeds=[d.int(0, 4000) for _ in range(4)], exe=d.choice([None, None, None, 'child prog', 'a "b" c', 'back\\slash', 'x y z']), brk=d.choice([None, None, None, '.sync', 'wl_registry, wl_display', '*', 'wl_display ! .sync', '.bind']), parent_wayland_debug=d.choice([None, None, '1', 'client', 'server', '0', '']))
+                    linger=d.choice([0, 0, 0, 0, 0, 0, 0, 1.3]), no_stdin=d.chance(0.3), slow_pipe=d.choice([None, None, None, None, None, None, [1.4, 0.0], [0.0, 1.2], [1.3, 0.3]]), nmsg=len(specs), hashseeds=[d.int(0, 4000) for _ in range(4)], exe=d.choice([None, None, None, 'child prog', 'a "b" c', 'back\\slash', 'x y z']), brk=d.choice([None, None, None, '.sync', 'wl_registry, wl_display', '*', 'wl_display ! .sync', '.bind']), parent_wayland_debug=d.choice([None, None, '1', 'client', 'server', '0', '']))
 
     def execute(self, case):
         res = Result()
@@ -113,6 +113,9 @@ class Modes(Stage):
                 err_p = err_p.replace(b'Warning: Ignoring stop matcher when stdin is used for messages\n', b'', 1)
             if err_f != err_p:
                 res.bad('file-vs-pipe-stderr', first_diff(err_f, err_p))
+            # nobody at the prompt (standard input at end of file, as under cron or with </dev/null): the session just ends, the
+            # program's exit status is still handed on
+            run_stdin = b'r\n' * (case['nmsg'] + 2 if case.get('brk') else 0) + (b'' if case.get('no_stdin') else b'q\n')
             marker = (MARKER % case['marker'])
             outs = []
             for k, chunks in enumerate(case['chunks']):
@@ -122,12 +125,12 @@ class Modes(Stage):
                 extra = dict(hs[2 + k], WDV_CHILD_SPEC=spec)
                 if case.get('parent_wayland_debug') is not None:
                     extra['WAYLAND_DEBUG'] = case['parent_wayland_debug']     # wayland-debug itself started from such an environment
-                rc, out, err = cli.run_main(opts + ['-r'] + command + case['argv'], stdin=b'r\n' * (case['nmsg'] + 2 if case.get('brk') else 0) + b'q\n', extra_env=extra)
+                rc, out, err = cli.run_main(opts + ['-r'] + command + case['argv'], stdin=run_stdin, extra_env=extra)
                 res.evals += 1
                 if b'Failed to join subprocess thread' in err and linger:
                     # the program closed its stderr and exited 1.3 s later: the tool must wait for it and hand on its exit status.
                     # Confirm once more before calling it a violation (wall-clock effects must not raise an alarm)
-                    rc2, out2, err2 = cli.run_main(opts + ['-r'] + command + case['argv'], stdin=b'r\n' * (case['nmsg'] + 2 if case.get('brk') else 0) + b'q\n', extra_env=extra)
+                    rc2, out2, err2 = cli.run_main(opts + ['-r'] + command + case['argv'], stdin=run_stdin, extra_env=extra)
                     if rc2 != case['exit']:
                         res.bad('exit-status:lingering-program', 'program closed stderr, exited %d after 1.3 s; wayland-debug exited with %r twice (stderr %r)' % (case['exit'], rc2, err2[-200:]))
                     continue
@@ -165,6 +168,7 @@ class Modes(Stage):
         if not case['text'].endswith('\n'): res.label('no-final-newline')
         if any(ord(c) > 127 for c in case['text']): res.label('multi-byte')
         if '\ue000' in case['text']: res.label('undecodable-byte-in-chatter')
+        if case.get('no_stdin'): res.label('nobody-at-the-prompt')
         if case.get('slow_pipe'): res.label('slow-producer-on-the-pipe')
         if case.get('brk'): res.label('with -b')
         if case.get('exe') and not case['argv']: res.label('program-is-one-word')
